@@ -5,12 +5,14 @@ package main
 
 import (
 	"bufio"
+	"bytes"
 	"fmt"
 	"math/rand"
 	"os"
 	"sort"
 	"strconv"
 	"strings"
+	"unicode/utf8"
 )
 
 type transcript struct {
@@ -383,6 +385,19 @@ func (h *history) insert(lit string) {
 				return
 			}
 		}
+		// what C08's theorem assumes of x/text's keys (`KeysOK`), measured on every stored pair
+		skNew := sortKeyOf(c)
+		for _, p := range h.order {
+			skOld := sortKeyOf(t.TranscriptLit(p))
+			h.s.tr.stats["coll-keysok-pairs"]++
+			for _, pr := range [][2][]byte{{skNew, skOld}, {skOld, skNew}} {
+				a, b := pr[0], pr[1]
+				if bytes.HasPrefix(b, append(append([]byte{}, a...), 0, 0)) || bytes.Equal(b, append(append([]byte{}, a...), 0)) || bytes.Equal(a, b) {
+					h.s.tr.emit(fmt.Sprintf("assert %d sort-keys-of-stored-strings-satisfy-KeysOK", h.id),
+						fmt.Sprintf("violated:%x:%x", a, b))
+				}
+			}
+		}
 	}
 	h.nextVal++
 	h.s.exec("ins", h.id, lit, strconv.Itoa(h.nextVal))
@@ -487,7 +502,14 @@ func (h *history) query() {
 		p := h.anyKey()
 		if r.Intn(2) == 0 && p != "-" {
 			b := unhex(p)
-			p = hexLit(b[:r.Intn(len(b)+1)])
+			cut := r.Intn(len(b) + 1)
+			if strings.Contains(h.cfg.spec, "runes") {
+				// a []rune prefix is a sequence of whole characters: cut at a character boundary
+				for cut > 0 && cut < len(b) && !utf8.RuneStart(b[cut]) {
+					cut--
+				}
+			}
+			p = hexLit(b[:cut])
 		}
 		st, ps := h.stopPasses()
 		h.s.exec("seq", h.id, "prefix", p, st, ps)
@@ -785,6 +807,9 @@ func (h *history) probeSweep() {
 		fields = strings.Split(strings.Fields(h.cfg.spec)[1], ",")
 	}
 	probe := func(m string, i int) {
+		if strings.Contains(h.cfg.spec, "runes") && !utf8.Valid(unhex(m)) {
+			return // not a []rune value: Go's own string([]rune) conversion would alter it
+		}
 		if _, ok := h.present[h.canonKey(m)]; ok {
 			return
 		}
@@ -839,6 +864,14 @@ func (h *history) probeSweep() {
 			probe(m, i)
 		}
 	}
+}
+
+// sortKeyOf extracts the sort key bytes from a collation transcript literal "orig:sortkey"
+func sortKeyOf(tlit string) []byte {
+	if i := strings.IndexByte(tlit, ':'); i >= 0 {
+		return unhex(tlit[i+1:])
+	}
+	return nil
 }
 
 func (h *history) canonKey(lit string) string {
